@@ -34,6 +34,10 @@ def main():
         finally:
             sh("git", "-C", "/repo", "checkout", "--", ".")
         json.dump(meta, open(f"{d}/meta.json", "w"), indent=1)
+    # the harness binary was built against the last changed tree: rebuild it against the clean one
+    sys.path.insert(0, f"{V}/bin")
+    import vlib
+    vlib.build_harness()
     # evidence written while a change was applied must not stay: the caller refreshes it
     print("NOTE: evidence files of the checks run above now describe the changed tree; re-run those checks")
     return 1 if missed else 0
